@@ -70,10 +70,12 @@ def check (c):
     viol = []
     mon  = {}
     worst = 0.0
+    margins = {}
     def judge (name, measured, allowed, msg, key = None):
         nonlocal worst
         mon [name] = mon.get (name, 0) + 1
         worst = max (worst, measured / allowed)
+        margins [name.split (':') [0]] = max (margins.get (name.split (':') [0], 0.0), measured / allowed)
         if not (measured <= allowed):
             viol.append (dict (monitor = name, key = key or name, msg = msg, measured = measured, allowed = allowed))
     # ---- (a), (b): complex field vs radiation integrals, at r = 1 and source power
@@ -83,12 +85,16 @@ def check (c):
     g0   = np.array (F0.gain)
     th, ph = np.meshgrid (zen.angle_deg (), azi.angle_deg ())
     et, ep = ffref.far_field (m, th, ph, 'point')
-    mx = max (abs (et).max (), abs (ep).max (), 1e-300)
+    # "pattern maximum" is the maximum over the whole sphere (upper hemisphere over ground), not over the
+    # directions that happen to be in the requested table: taken from the reference on a 5 x 10 degree grid
+    tg, pg = np.meshgrid (np.arange (0.0, 90.1 if m.media is not None else 180.1, 5.0), np.arange (0.0, 360.0, 10.0))
+    gt, gp = ffref.far_field (m, tg, pg, 'point')
+    mx = max (abs (et).max (), abs (ep).max (), float (np.sqrt (abs (gt) ** 2 + abs (gp) ** 2).max ()), 1e-300)
     dev = max (abs (et0 - et).max (), abs (ep0 - ep).max ()) / mx
     judge ('point-moment', dev, 1e-4, 'far field deviates %.3g of the pattern maximum from the point-moment radiation integral' % dev)
     if facts ['seg_max'] <= 1 / 18. * (1 + 1e-9):
         xt, xp = ffref.far_field (m, th, ph, 'exact')
-        mx2 = max (abs (xt).max (), abs (xp).max (), 1e-300)
+        mx2 = mx
         dev = max (abs (et0 - xt).max (), abs (ep0 - xp).max ()) / mx2
         mon ['exact-integral'] = 1
         worst = max (worst, dev / 0.02)
@@ -169,6 +175,6 @@ def check (c):
     ncomp = int ((np.abs (np.array ([h ['tau'] for h in ffref.halves (m)])).max (0) > 1e-6).sum ())
     sig = gen.signature (spec, m, extra = ['comp%d' % ncomp, 'valid%d' % ok])
     return dict ( status = 'violation' if viol else 'held', sig = sig, nontrivial = bool (ncomp > 1 or m.media is not None)
-                , margin = worst, monitors = mon, violations = viol [:6]
+                , margin = worst, margins = margins, monitors = mon, violations = viol [:6]
                 , info = dict (seg_max = facts ['seg_max'], N = len (m.pulses)))
 # end def check
